@@ -277,19 +277,51 @@ class LexModel:
                 if is_value(v):
                     p = self.lexer.parent.get(st)
                     src = None
+                    extra: List[ast.AST] = []
                     while p is not None and p is not fn:
-                        if isinstance(p, ast.If):
-                            c = p.test
-                            if isinstance(c, ast.Compare) and len(c.ops) == 1 and isinstance(c.ops[0], ast.In) and is_value(c.left) and any(x is st for b in p.body for x in ast.walk(b)):
-                                ch = attr_chain(c.comparators[0])
-                                if ch and len(ch) == 2 and ch[0] == "self":
-                                    src = ch[1]
+                        if isinstance(p, ast.If) and any(x is st for b in p.body for x in ast.walk(b)):
+                            # the membership test, alone or as one conjunct of an `and` (the other conjuncts are then
+                            # evaluated for every member of the set: `len(t.value) <= 13 and t.value in self.keywords`)
+                            conj = p.test.values if isinstance(p.test, ast.BoolOp) and isinstance(p.test.op, ast.And) else [p.test]
+                            for c in conj:
+                                if isinstance(c, ast.Compare) and len(c.ops) == 1 and isinstance(c.ops[0], ast.In) and is_value(c.left):
+                                    ch = attr_chain(c.comparators[0])
+                                    if ch and len(ch) == 2 and ch[0] == "self":
+                                        src = ch[1]
+                                        extra = [x for x in conj if x is not c]
                         p = self.lexer.parent.get(p)
                     if src is None:
                         raise AnalysisError(f"{r.name} re-types tokens to their own text without a membership test the model can follow")
                     vals = self.F.get(src)
+
+                    def holds(e: ast.AST, text: str) -> bool:
+                        def ev(x: ast.AST):
+                            if isinstance(x, ast.Constant):
+                                return x.value
+                            if is_value(x):
+                                return text
+                            if isinstance(x, ast.Call) and isinstance(x.func, ast.Name) and x.func.id == "len" and len(x.args) == 1:
+                                return len(ev(x.args[0]))
+                            if isinstance(x, ast.Call) and isinstance(x.func, ast.Attribute) and x.func.attr in ("startswith", "endswith", "isidentifier", "isalpha", "islower") and is_value(x.func.value):
+                                return getattr(text, x.func.attr)(*[ev(a) for a in x.args])
+                            if isinstance(x, ast.UnaryOp) and isinstance(x.op, ast.Not):
+                                return not ev(x.operand)
+                            if isinstance(x, ast.Subscript) and not isinstance(x.slice, ast.Slice):
+                                return ev(x.value)[ev(x.slice)]
+                            if isinstance(x, ast.Compare) and len(x.ops) == 1:
+                                l_, r_ = ev(x.left), ev(x.comparators[0])
+                                op = x.ops[0]
+                                return {ast.Eq: lambda: l_ == r_, ast.NotEq: lambda: l_ != r_, ast.Lt: lambda: l_ < r_, ast.LtE: lambda: l_ <= r_, ast.Gt: lambda: l_ > r_,
+                                        ast.GtE: lambda: l_ >= r_, ast.In: lambda: l_ in r_, ast.NotIn: lambda: l_ not in r_}[type(op)]()
+                            raise AnalysisError(f"{r.name}: a condition next to the keyword membership test is not modelled: `{norm(e)}`")
+                        try:
+                            return bool(ev(e))
+                        except (KeyError, IndexError, TypeError):
+                            raise AnalysisError(f"{r.name}: a condition next to the keyword membership test is not modelled: `{norm(e)}`")
+
                     for k in vals:
-                        self.retypes.append((r.name, k, k))
+                        if all(holds(e_, k) for e_ in extra):
+                            self.retypes.append((r.name, k, k))
                     continue
                 d = None
                 if isinstance(v, ast.Call) and isinstance(v.func, ast.Attribute) and v.func.attr == "get" and v.args and is_value(v.args[0]):
